@@ -43,6 +43,26 @@ func checkSignMessageOrder(r *Report, rule string) {
 			undecidedf("anchor not found: SignMessage.%s", name)
 		}
 		o := r.ob(rule, shortFn(fn)+":order", fn, nil, "elements are appended in a full-range index loop, one per source element")
+		// the list value that is emitted / stored: when a helper computes it,
+		// the loop is looked for in the helper
+		var listV *Term
+		if name == "MarshalCBOR" {
+			if wire, _, _, _ := P.encoderWireValueRaw(fn); wire != nil {
+				listV = projectField(wire, "Signatures")
+			}
+		} else if sts := P.receiverStores(fn); len(sts) == 1 {
+			listV = projectField(P.terms.of(sts[0].Val), "Signatures")
+		}
+		for d := 0; d < 3 && listV != nil; d++ {
+			if listV.Op == "res" && listV.S == "0" && listV.Args[0].Op == "call" {
+				if h := P.calleeOfTerm(listV.Args[0]); h != nil && P.inPkg(h) && len(findLoops(fn)) == 0 {
+					fn = h
+					listV = P.terms.successResult(h, 0)
+					continue
+				}
+			}
+			break
+		}
 		var L *loopInfo
 		for _, l := range findLoops(fn) {
 			if (l.kind == "slice-range" || l.kind == "counted") && l.fullRange {
